@@ -28,6 +28,9 @@ Definition call (e : N) (p : list N) (d tail : bytes) : res rows :=
   else if e =? 11 then ipcp_receive (pnth p 0) (pnth p 1) d
   else if e =? 12 then ip6cp_receive (pnth p 0) (pnth p 1) d
   else if e =? 13 then auth_receive (pnth p 0) (pnth p 1) d
+  else if e =? 14 then
+    (* params [mode; n; zero_used; next; free ids...] *)
+    create_seq (N.to_nat (pnth p 1)) (used_of (skipn 2 p)) (count_of (skipn 2 p)) (pnth p 3)
   else if e =? 20 then d6_message d
   else if e =? 21 then d6_options d
   else if (e =? 22) || (e =? 23) then d6_ia d
@@ -91,6 +94,7 @@ Definition markers (o : op) : list N :=
       | 5 => if (6 <? lenN d) && (lenN d - 6 <? hdr_len d) &&
                 (match idx d 1 with Ok c => c =? 167 | _ => false end) then [905] else []
       | 9 => if 65535 <=? count_of p then [907] else []
+      | 14 => if 65535 <=? count_of (skipn 2 p) + N.of_nat (N.to_nat (pnth p 1)) then [907] else []
       | _ => []
       end
   | _ => []
